@@ -235,6 +235,196 @@ def run_local(h, base: Path, label):
     return out, read_tree(real)
 
 
+# --------------------------------------------------------------------------- observation AT the commit point of an upload
+class SimulatedCrash(BaseException):
+    """stands for the process dying at this system call"""
+
+
+class CommitHook:
+    """Intercepts os.replace / os.rename (what Path.replace delegates to) whose target lies inside the watched store,
+    and shutil.copyfileobj into a file of the store: callback(kind, path) runs right BEFORE the real call."""
+
+    def __init__(self, real_root: Path, callback):
+        self.root = os.path.realpath(real_root) + os.sep
+        self.callback = callback
+        self.fired = 0
+
+    def inside(self, p):
+        try:
+            return os.path.realpath(os.fspath(p)).startswith(self.root)
+        except (TypeError, ValueError):
+            return False
+
+    def __enter__(self):
+        import shutil
+        self._replace, self._rename, self._copy = os.replace, os.rename, shutil.copyfileobj
+
+        def make(original):
+            def patched(src, dst, *a, **ka):
+                if self.inside(dst):
+                    self.fired += 1
+                    self.callback('rename', os.path.realpath(os.fspath(dst)))
+                return original(src, dst, *a, **ka)
+            return patched
+
+        def copy(fsrc, fdst, length=0):
+            name = getattr(fdst, 'name', None)
+            if isinstance(name, (str, bytes, os.PathLike)) and self.inside(name):
+                self.callback('copy', None)
+            return self._copy(fsrc, fdst, length) if length else self._copy(fsrc, fdst)
+
+        os.replace, os.rename, shutil.copyfileobj = make(self._replace), make(self._rename), copy
+        return self
+
+    def __exit__(self, *exc):
+        import shutil
+        os.replace, os.rename, shutil.copyfileobj = self._replace, self._rename, self._copy
+
+
+def observe_store(real: Path, cur: dict, names, chunk):
+    """What a second client of the same repository sees right now, compared with the map `cur`."""
+    from replicat.backends.local import Local
+    b = Local(str(real))
+    bad = []
+    for u in names:
+        want = cur.get(u)
+        ex = b.exists(u)
+        if ex != (want is not None):
+            bad.append(f'exists({u!r}) = {ex}, the map says {want is not None}')
+        # (a download of a name that is not there would only exercise the adapter's retry loop)
+        got = None
+        if ex or want is not None:
+            try:
+                got = b.download(u)
+            except OSError:
+                got = None
+        if got != want:
+            bad.append(f'download({u!r}) = {got!r}, the map holds {want!r}')
+        if want is not None and ex:
+            st = io.BytesIO()
+            try:
+                b.download_stream(u, st, chunk)
+                got = st.getvalue()
+            except OSError:
+                got = None
+            if got != want:
+                bad.append(f'download_stream({u!r}) = {got!r}, the map holds {want!r}')
+    listed = sorted(b.list_files(''))
+    if listed != sorted(cur):
+        bad.append(f"list_files('') = {listed}, the map's names are {sorted(cur)}")
+    return bad
+
+
+def apply_op(cur, op):
+    if op[0] in ('upload', 'upload_stream'):
+        cur[op[1]] = bytes.fromhex(op[2])
+    elif op[0] == 'delete':
+        cur.pop(op[1], None)
+
+
+def run_local_commit_points(h, base: Path, label, crash_at=None):
+    """The history on Local with a second client looking at the store right before every rename that publishes an
+    upload (and before the copy of a streamed upload): it must see exactly the map as it was BEFORE the operation.
+    With crash_at = k the rename of operation k raises SimulatedCrash instead; a fresh client must then find the
+    object of that operation with its old or its new bytes (absent only if it was absent before) and everything else
+    untouched.  Returns (results, problems)."""
+    from replicat.backends.local import Local
+    conn, cwd, real = local_instance(base, label)
+    cur, pending, problems = {}, [None], []
+    ops = h['ops'] if crash_at is None else h['ops'][:crash_at + 1]
+    hh = dict(h, ops=ops)
+
+    def before(idx, op):
+        pending[0] = (idx, op)
+
+    def after(idx, op):
+        apply_op(cur, op)
+
+    def callback(kind, path):
+        idx, op = pending[0]
+        if crash_at is not None:          # the crash runs only crash; the reader run observes
+            if idx == crash_at and kind == 'rename':
+                raise SimulatedCrash()
+            return
+        watch = [op[1]] + [n for n in h['names'] if n != op[1]][:3]
+        here = os.getcwd()
+        try:
+            for b in observe_store(real, cur, watch, h['chunk']):
+                problems.append({'idx': idx, 'op': op[:2], 'when': 'before the rename' if kind == 'rename' else 'during the streamed copy',
+                                 'kind': 'commit_point_reader', 'what': b})
+        finally:
+            os.chdir(here)
+
+    old = os.getcwd()
+    out = None
+    try:
+        if cwd is not None:
+            os.chdir(cwd)
+        b = Local(conn)
+        with CommitHook(real, callback) as hook:
+            try:
+                out = _sync_run(run_adapter(b, hh, before, after))
+            except SimulatedCrash:
+                pass
+    finally:
+        os.chdir(old)
+    if crash_at is not None:
+        idx, op = crash_at, h['ops'][crash_at]
+        name, new = op[1], bytes.fromhex(op[2])
+        tree = read_tree(real)
+        tree = {k: v for k, v in tree.items() if not k.endswith('.tmp')}
+        allowed = [dict(cur), dict(cur, **{name: new})]
+        from replicat.backends.local import Local as L2
+        fresh = L2(str(real))
+        seen = {}
+        for n in sorted(set(h['names']) | {name}):
+            if fresh.exists(n):
+                try:
+                    seen[n] = fresh.download(n)
+                except OSError:
+                    seen[n] = None
+        listed = sorted(fresh.list_files(''))
+        if seen not in allowed or listed != sorted(seen):
+            problems.append({'idx': idx, 'op': op[:2], 'when': 'after a crash at the rename', 'kind': 'commit_point_crash',
+                             'what': f'a fresh client finds {name!r} = {seen.get(name)!r} (listing {listed}); before the upload it was '
+                                     f'{cur.get(name)!r}, the upload carries {new!r}'})
+    return out, problems, hook.fired
+
+
+def crash_points(h):
+    """Indices of uploads worth crashing: the last one that replaces a live object, and the last one that creates one."""
+    cur, over, fresh = {}, None, None
+    for i, op in enumerate(h['ops']):
+        if op[0] in ('upload', 'upload_stream'):
+            if op[1] in cur:
+                over = i
+            else:
+                fresh = i
+        apply_op(cur, op)
+    return [i for i in (over, fresh) if i is not None]
+
+
+def check_commit_points(h, ref, rep: Report, base: Path, label):
+    out, problems, fired = run_local_commit_points(h, base / 'reader', label)
+    rep.count('commit_point_observations', fired)
+    if out is not None and out != ref:
+        i = first_diff(out, ref)
+        problems.append({'idx': i, 'op': h['ops'][i][:2], 'when': 'with the commit-point hook installed', 'kind': 'history',
+                         'what': f'returned {str(out[i])[:100]!r}, a plain map returns {str(ref[i])[:100]!r}'})
+    for k in crash_points(h):
+        _, pr, _ = run_local_commit_points(h, base / f'crash{k}', label, crash_at=k)
+        rep.count('commit_point_crashes')
+        problems += pr
+    firsts = {}
+    for pr in problems:
+        firsts.setdefault((pr['kind'], pr['op'][0]), pr)
+    for pr in firsts.values():
+        rep.violations.append({
+            'what': f'local:{label}: op #{pr["idx"]} {pr["op"]} {pr["when"]}: {pr["what"]}',
+            'signature': {'backend': 'local', 'kind': pr['kind'], 'op': pr['op'][0]},
+            'replay': {'history': h, 'backend': 'local:' + label, 'probe': 'commit_point'}})
+
+
 _LOOP = None
 
 
@@ -386,6 +576,8 @@ def check_histories(hs, rep: Report, scratch: Path, spellings, with_model=True, 
             runs = {}
             for label in spellings(idx):
                 runs['local:' + label] = run_local(h, scratch / f'{tag}{idx}_{label}', label)[:2]
+            labels = spellings(idx)
+            check_commit_points(h, ref, rep, scratch / f'{tag}{idx}_commit', labels[idx % len(labels)])
             s3o, s3state, s3pages = run_s3(h)
             b2o, b2state, b2pages = run_b2(h)
             runs['s3c'] = (s3o, s3state)
@@ -440,6 +632,15 @@ def check_histories(hs, rep: Report, scratch: Path, spellings, with_model=True, 
 
 def probes(rep: Report, scratch: Path):
     """Inputs of the known findings, kept out of the main generator (DESIGN.md section 5, rows 8 and 9)."""
+    # replacement of an existing object, plain and streamed, observed at the commit point and crashed there
+    h = {'names': ['data/ab/x', 'data/ab/y', 'top'], 'page': 2, 'chunk': 4, 'synthetic_next': False, 'piece': 4,
+         'ops': [['upload', 'data/ab/x', '0102'], ['upload_stream', 'data/ab/y', '03040506070809'], ['upload', 'top', ''],
+                 ['upload_stream', 'data/ab/x', '1112131415'], ['upload', 'data/ab/y', '21'], ['upload', 'data/ab/x', '31'],
+                 ['upload_stream', 'data/ab/y', '4142434445464748'], ['list', 'data/']]}
+    with fk.VirtualSleep():
+        for label in ('abs', 'dot', 'symlink'):
+            check_commit_points(h, run_dict(h)[0], rep, scratch / f'probe_commit_{label}', label)
+            rep.case(('probe_commit', label), nontrivial=False)
     with fk.VirtualSleep():
         # row 8: a local name ending in .tmp exists but is never listed
         h = {'names': ['data/zz.tmp'], 'ops': [['upload', 'data/zz.tmp', '0102'], ['exists', 'data/zz.tmp'], ['list', 'data/'], ['list', '']],
